@@ -19,6 +19,9 @@ type provProfile struct {
 	conns                                                                  int
 	topn                                                                   bool
 	lowPower                                                               bool // powers 1..3: many ties
+	wVal                                                                   int  // validator creation / removal
+	keyPool                                                                int  // number of extra consumer keys (default 10)
+	nvExtra                                                                int  // validator ids that may be created later
 }
 
 const sec = int64(1000000000)
@@ -178,7 +181,7 @@ func (p *provRunner) ownerOf(c string) string {
 }
 
 func (p *provRunner) genOne(r *Rng, prof provProfile) string {
-	ws := []int{prof.wCreate, prof.wUpdate, prof.wRemove, prof.wOpt, prof.wAssign, prof.wStake, prof.wBlock, prof.wChan, prof.wSlash, prof.wMisc, prof.wParams}
+	ws := []int{prof.wCreate, prof.wUpdate, prof.wRemove, prof.wOpt, prof.wAssign, prof.wStake, prof.wBlock, prof.wChan, prof.wSlash, prof.wMisc, prof.wParams, prof.wVal}
 	switch pickWeighted(r, ws) {
 	case 0: // create
 		chain := fmt.Sprintf("c%d-1", r.intn(4))
@@ -260,7 +263,7 @@ func (p *provRunner) genOne(r *Rng, prof provProfile) string {
 		return fmt.Sprintf("optout v=%d c=%s signer=%d", v, c, signer)
 	case 4: // assign
 		c := p.pickConsumer(r)
-		v := r.intn(prof.nv)
+		v := r.intn(prof.nv + prof.nvExtra)
 		signer := v
 		if r.chance(6) {
 			signer = r.intn(prof.nv)
@@ -303,6 +306,15 @@ func (p *provRunner) genOne(r *Rng, prof provProfile) string {
 		c := p.pickConsumer(r)
 		v := r.intn(prof.nv)
 		return fmt.Sprintf("commission v=%d c=%s rate=%s signer=%d", v, c, []string{"0.050000000000000000", "0.100000000000000000", "0.010000000000000000", "1.000000000000000000"}[r.intn(4)], v)
+	case 11:
+		v := r.intn(prof.nv + prof.nvExtra)
+		if r.chance(60) {
+			return fmt.Sprintf("newval v=%d tokens=%d", v, (1+r.i64n(5))*1000000)
+		}
+		if p.unjailedCount() <= 2 {
+			return fmt.Sprintf("newval v=%d tokens=%d", v, (1+r.i64n(5))*1000000)
+		}
+		return fmt.Sprintf("rmval v=%d", v)
 	default:
 		if r.chance(50) {
 			return fmt.Sprintf("setparams s=%s M=%d", []string{"gov", "gov", "u1"}[r.intn(3)], 1+r.intn(prof.nv+1))
@@ -314,9 +326,13 @@ func (p *provRunner) genOne(r *Rng, prof provProfile) string {
 // key ids: validators' own provider keys (0..nv-1) and a small pool of extra keys to force collisions
 func (p *provRunner) genKey(r *Rng, prof provProfile) int {
 	if r.chance(20) {
-		return r.intn(prof.nv)
+		return r.intn(prof.nv + prof.nvExtra)
 	}
-	return 32 + r.intn(10)
+	kp := prof.keyPool
+	if kp == 0 {
+		kp = 10
+	}
+	return 32 + r.intn(kp)
 }
 
 // channel handshake attempts: mostly on the client of a launched consumer, with every parameter
@@ -442,5 +458,8 @@ func init() {
 	hs := provProfile{name: "handshake", nv: 4, maxvals: 4, M: 3, epoch: 2, unb: 10 * sec, conns: 2,
 		wCreate: 14, wUpdate: 10, wRemove: 5, wOpt: 18, wAssign: 2, wStake: 4, wBlock: 22, wChan: 25, topn: false}
 	streams["handshake"] = StreamDef{New: func(t *Trace) Runner { return newProvRunner(t) }, Gen: genProv(hs)}
+	keys := provProfile{name: "keys", nv: 4, nvExtra: 2, maxvals: 5, M: 4, epoch: 2, unb: 12 * sec, keyPool: 5,
+		wCreate: 5, wUpdate: 4, wRemove: 3, wOpt: 14, wAssign: 34, wStake: 3, wBlock: 22, wVal: 9}
+	streams["keys"] = StreamDef{New: func(t *Trace) Runner { return newProvRunner(t) }, Gen: genProv(keys)}
 	streams["epoch"] = StreamDef{New: func(t *Trace) Runner { return newProvRunner(t) }, Gen: genProv(ep)}
 }
